@@ -35,8 +35,9 @@ const (
 	// tileHeight is the tlog tile height.
 	// From: https://developers.google.com/android/binary_transparency/tile
 	tileHeight = 1
-	// maxTreeSize is the largest tree size which tlog's proof functions can handle.
-	maxTreeSize = 1 << 62
+	// maxTreeSize is the largest tree size which tlog's proof functions can handle:
+	// they evaluate maxpow2(size+1), which only terminates for arguments up to 2^62.
+	maxTreeSize = 1<<62 - 1
 )
 
 // FeedLog retrieves checkpoints and proofs from the source Pixel BT log, and sends them to the witness.
@@ -59,7 +60,7 @@ func FeedLog(ctx context.Context, l config.Log, w feeder.Witness, c *http.Client
 			return [][]byte{}, nil
 		}
 		// tlog works on int64 sizes, and its arithmetic only terminates for trees of
-		// at most 2^62 leaves: refuse anything a (log-signed) checkpoint claims beyond that.
+		// fewer than 2^62 leaves: refuse anything a (log-signed) checkpoint claims beyond that.
 		if to.Size > maxTreeSize || from.Size > to.Size {
 			return nil, fmt.Errorf("cannot build consistency proof between tree sizes %d and %d", from.Size, to.Size)
 		}
